@@ -1,16 +1,18 @@
 ---------------------------- MODULE MC_ActProtocol ----------------------------
-(* X09.  mode "std" / "fast": a network of ANY topology (no link at all, isolated outputs, self-loops, cycles,         *)
-(* time-delayed links, links marked recurrent) is built link by link over one of the node sets in Shapes and sealed    *)
-(* with an allNodes order, activation functions, recurrence marks and a construction method; the static queries are    *)
-(* handed out as one "static" case (node / link counts of both solvers, the Incoming / Outgoing lists, the activation  *)
-(* depth, every Network.IsRecurrent query).  Then EVERY sequence of MaxOps API calls from the alphabet is applied to   *)
-(* the standard network (mode "std") or to the fast solver (mode "fast"), starting from the freshly built object; the   *)
-(* observation after EVERY call (error class, returned boolean, outputs, per-node activation count / value /            *)
-(* GetActiveOut / GetActiveOutTd / isActive / lastActivation2 / FlushbackCheck, resp. all signals of the fast solver)  *)
-(* is logged and the sequence is printed as one case when it is complete.  The laws of ActProtocol.tla are invariants  *)
-(* evaluated after every call on (state before, call, result with its trace of passes).                                *)
-(* mode "species" / "organism" / "damaged": the helper operations of Species and Organism as state machines over       *)
-(* three organisms resp. a three-gene genome, every sequence of MaxOps operations.                                     *)
+(* X09.  modes "std" / "fast" / "static": a network of ANY topology (no link at all, isolated outputs, self-loops,       *)
+(* cycles, time-delayed links, links marked recurrent) is built link by link over one of the node sets in Shapes and    *)
+(* sealed with an allNodes order and activation functions.                                                              *)
+(*   "static": sealed with every recurrence marking and construction method; the queries that need no call history are  *)
+(*     handed out as one case (node / link counts of both solvers, Incoming / Outgoing lists, activation depth, whether  *)
+(*     Activate can succeed on the fresh network, every Network.IsRecurrent query).                                      *)
+(*   "std" / "fast": EVERY sequence of MaxOps API calls from the alphabet is applied to the standard network resp. the   *)
+(*     fast solver, starting from the freshly built object; the observation after EVERY call (error class, returned     *)
+(*     boolean, outputs, per node activation count / value / GetActiveOut / GetActiveOutTd / isActive / lastActivation2 *)
+(*     / FlushbackCheck, resp. all signals of the fast solver) is logged and the call that completes the sequence prints *)
+(*     the behaviour as one case.  The laws of ActProtocol.tla are invariants evaluated after every call on             *)
+(*     (state before, call, result with its trace of passes).                                                           *)
+(* modes "species" / "organism" / "damaged": the helper operations of Species and Organism as state machines over       *)
+(* three organisms resp. a three-gene genome, every sequence of MaxOps operations; the CheckChampionChildDamaged table.  *)
 EXTENDS ActProtocol, Json
 CONSTANTS Modes, Inputs, Biases, Hidden, OutSet, Shapes, WeightScheme, TdFlags, RecKinds, BuildKinds, Variants,
           LinkCaps, Canonical, StdOps, FastOps, MaxOps, Thresholds, Limit,
@@ -250,7 +252,7 @@ StdOpsAll == StdOpsCore \cup StdOpsEdge
 StdOpsSeq == {S("load", 0, 1), S("load", 0 - 1, 1), S("act", 0, 0), S("steps", 1, 0), S("steps", 2, 0), S("rec", 0, 0), S("flush", 0, 0)}
 FastOpsCore == {S("load", 0, 1), S("load", 1, 1), S("fwd", 0, 0), S("fwd", 1, 0), S("rec", 0, 0), S("relax", 3, 2),
                 S("relax", 2, 0), S("flush", 0, 0)}
-FastOpsEdge == {S("load", 0, 1), S("load", 0 - 1, 1), S("load", 0, 2), S("fwd", 2, 0), S("fwd", 0 - 1, 0), S("relax", 0, 2),
+FastOpsEdge == {S("load", 0, 1), S("flush", 0, 0), S("load", 0 - 1, 1), S("load", 0, 2), S("fwd", 2, 0), S("fwd", 0 - 1, 0), S("relax", 0, 2),
                 S("relax", 3, 1), S("relax", 3, 4), S("relax", 2, 0 - 2), S("rec", 0, 0)}
 FastOpsAll == FastOpsCore \cup FastOpsEdge
 FastOpsSeq == {S("load", 0, 1), S("fwd", 1, 0), S("rec", 0, 0), S("relax", 3, 2), S("relax", 2, 0), S("flush", 0, 0)}
